@@ -345,7 +345,7 @@ namespace vw
         g.kind = m_kind;
         // mostly small worlds (many short diverse runs); a few larger ones so that size-dependent paths
         // (many basins, high-degree basins, long levels) are reached as well
-        const bool large = r.chance(thorough ? 0.04 : 0.01);
+        const bool large = r.chance(thorough ? 0.04 : 0.02);
         const std::size_t max_nodes = large ? 400 : (thorough ? 144 : 64);
         const long max_dim = large ? 20 : (thorough ? 12 : 8);
         auto border = [&r]() -> int
